@@ -9,7 +9,7 @@ import threading
 
 from simkit import corpus, mon, rng as rngm, spec, universe as U
 
-KINDS = ['preempt', 'user_abort', 'reenter', 'scramble', 'gc', 'name_reuse', 'ctor_fail', 'compile', 'postprocess']
+KINDS = ['preempt', 'user_abort', 'reenter', 'scramble', 'gc', 'name_reuse', 'ctor_fail', 'compile', 'postprocess', 'clock_jump']
 
 
 # ------------------------------------------------------------------------------- generation
@@ -614,6 +614,10 @@ class Planner:
                     continue
                 if 'gc' in kinds and x < 0.25:
                     ops.append({'op': 'gc'})
+                    continue
+                if 'clock_jump' in kinds and 0.27 <= x < 0.31:
+                    # the clock moves on between two operations: 1 ms ... 1 day
+                    ops.append({'op': 'clock_jump', 'seconds': wr.choice([0.001, 0.06, 1.5, 61.0, 3700.0, 86401.0])})
                     continue
                 # a parse: mostly on the hot module so that calls collide
                 cands = [i for i in live if getattr(self.infos[i], 'owner', ci) == ci]
